@@ -38,6 +38,8 @@ var c14Fragments = []string{
 	// halves of multi-byte white space: removing what stands between them joins them into a character
 	"\xc2", "\xe2\x80", "\xa8", "\xe2", "\x80\xa8", "\xe3\x80", "\xe1\x9a", "\x80",
 	"\xc2 \xa0", "\xc2\t\x85", "\xe2\x80 \xa8", "\xe1\x9a\n\x80", "\xe3\x80\r\x80", "\xc2\x00\xa0",
+	// nested: removing the blank forms U+00A0, removing that forms U+2000
+	"\xe2\x80\xc2 \xa0\x80", "\xe3\x80\xc2\t\x85\x80", "\xe2\x80\xe2\x80 \xa8\xa8",
 	"^", "\"", "'", ",", ";", "(", " (", "/ ", "\\ ",
 	"\xff", "\xc0", "\xc0\xaf", "\xe2\x82", "\xe2\x82\xac", "\xf0\x9f\x98\x80", "\xed\xa0\x80", "é", "ſ", "K", "İ", "ǅ",
 	"A", "a", "Z", "z", "0", "9", "f", "F", "g", "=", "==", "QQ==", "QUI=", "QUJD", "-", "_", ".",
